@@ -123,6 +123,11 @@ fn main() {
             let cfgs = vec![hbfs::cfg_fine("C02", t), hbfs::cfg_coarse("C02", t)];
             let streams: &[&str] = if t { &["A", "B"] } else { &["A"] };
             hbfs::run(&args, &mut rep, cfgs, subject::primary_modes(), streams);
+            // the 4 GiB lane: asked for by the C02 plan only (the C04 / C08 plans reuse this enumeration without it)
+            if args.extra.contains_key("huge") {
+                c01::huge_hasher(&mut rep, t);
+                rep.notes.push("4 GiB lane: one keyed Hasher at the best SIMD level fed 2^32+3149 bytes as one update and in uneven pieces (thorough: two more splits and update_reader); count() after every piece, hash and extended output vs the spec".into());
+            }
             rep.rule = "BFS over the real Hasher from the fresh state: update(next k bytes of the stream) for k in the fine alphabet (all paths, bounded total) and the coarse alphabet (chunk multiples, bounded deviations), merged on the complete state; in every state count/finalize/finalize_xof/finalize_non_root vs the spec, purity, clone independence, structural invariants; on every transition Write::write/update_reader(/update_rayon) == update; non-trivial = distinct states reached by >= 2 updates".into();
         }
         "C10" => {
